@@ -12,6 +12,7 @@ mod c02;
 mod c03;
 mod c04;
 mod c05;
+mod c06;
 mod c10;
 mod c11;
 mod c12;
@@ -75,6 +76,7 @@ fn main() {
         "C03" => c03::run(&p, &mut rep),
         "C04" => c04::run(&p, &mut rep),
         "C05" => c05::run(&p, &mut rep),
+        "C06" => c06::run(&p, &mut rep),
         "C10" => c10::run(&p, &mut rep),
         "C11" => c11::run(&p, &mut rep),
         "C12" => c12::run(&p, &mut rep),
